@@ -120,7 +120,7 @@ func InvCDF(dist DistCommon) func(y float64) (x float64) {
 	// inform this computation.
 	return func(y float64) (x float64) {
 		const almostInf = 1e100
-		const xtol = 1e-16
+		const xtol = 0
 
 		if y < 0 || y > 1 {
 			return nan
